@@ -437,13 +437,37 @@ def _bad(rng, kind, n):
     return _track(rng, other, n), f"track-of-{other}"
 
 
-def observe_tracks(kind, blk):
+def observe_tracks(kind, blk, probe_labels=()):
     it = list(blk)
-    if kind == "emg":
-        return it, None
-    tr = list(blk.tracks)
-    if ident(tr) != ident(it) or len(blk) != len(it):
-        return it, "tracks property, iteration and len disagree"
+    if kind != "emg":
+        tr = list(blk.tracks)
+        if ident(tr) != ident(it) or len(blk) != len(it):
+            return it, "tracks property, iteration and len disagree"
+    # what the block answers to lookups by label is part of what it contains
+    labs = [t.label for t in it if isinstance(getattr(t, "label", None), str)]
+    if len(labs) == len(it):
+        for lb in list(dict.fromkeys(labs))[:4]:
+            try:
+                hit, inn = blk[lb], lb in blk
+            except Exception as e:
+                return it, f"lookup of the held label {lb[:20]!r} raises {type(e).__name__}"
+            if hit is not it[labs.index(lb)] or not inn:
+                return it, f"lookup of the held label {lb[:20]!r} does not give the first track carrying it"
+        for lb in probe_labels:
+            if lb in labs:
+                continue
+            try:
+                blk[lb]
+                return it, f"lookup by {lb[:20]!r} returns a track although the block holds none with that label"
+            except KeyError:
+                pass
+            except Exception as e:
+                return it, f"lookup of the absent label {lb[:20]!r} raises {type(e).__name__}"
+            try:
+                if lb in blk:
+                    return it, f"{lb[:20]!r} is reported as contained although the block holds no such track"
+            except Exception:
+                pass
     return it, None
 
 
@@ -452,7 +476,7 @@ def frames_of(kind, tr):
 
 
 def c16_sequence(rec, rng, kind, length, case):
-    n = rng.randint(1, 50)
+    n = rng.randint(1, 50) if rng.random() < 0.93 else 0      # blocks of no frames at all are blocks too
     steps = []
     if kind == "data3D":
         blk = tdfData3D.Data3D(100, n, np.ones(3, np.float32), np.eye(3, dtype=np.float32), np.zeros(3, np.float32))
@@ -488,8 +512,10 @@ def c16_sequence(rec, rng, kind, length, case):
             V("tracks-differ-from-history", f"second block: {len(cur_s)} tracks, its own history says {len(sib_shadow)}"); return False
         return True
 
+    refused_labels = []
+
     def invariant():
-        cur, err = observe_tracks(kind, blk)
+        cur, err = observe_tracks(kind, blk, tuple(refused_labels[-6:]))
         rec.count("oracle:C16.invariant")
         if err:
             V("accessors-disagree", err); return None
@@ -635,6 +661,7 @@ def c16_sequence(rec, rng, kind, length, case):
             cur, oerr = observe_tracks(kind, blk)
             rec.count("oracle:C16.assignment-all-or-nothing")
             if bad_at is not None:
+                refused_labels.extend(getattr(x_, "label", None) for x_ in lst if isinstance(getattr(x_, "label", None), str))
                 if err is None:
                     V("assign:invalid-list-accepted", f"element {bad_at} invalid"); return
                 if ident(cur) != ident(shadow):
@@ -800,6 +827,25 @@ def _c18_probe(rec, rng, kind, blk, labels, k, V):
                 V("absent-label-wrong-exception", f"[{lb!r}] raised {type(err).__name__}, not KeyError"); return False
             if cont:
                 V("contains-disagrees-with-lookup", f"{lb!r} in block is {cont} but lookup raises KeyError"); return False
+    # keys that are instances of subclasses of str / int: numpy strings (labels taken from an array), IntEnum positions
+    import enum as _en
+    if k:
+        Pos = _en.IntEnum("Pos", {f"P{i_}": i_ for i_ in range(k)})
+        for i_ in range(k):
+            rec.count("oracle:C18.subclass-keys")
+            try:
+                if blk[Pos(i_)] is not items[i_]:
+                    V("index-returns-other-item", f"[IntEnum({i_})] is not the {i_}-th iterated item"); return False
+            except Exception as e:
+                V("valid-index-raises", f"[IntEnum({i_})] raised {type(e).__name__}"); return False
+        for lb in list(dict.fromkeys(labs))[:3]:
+            nk = np.str_(lb)
+            try:
+                got_n, in_n = blk[nk], nk in blk
+            except Exception as e:
+                V("present-label-raises", f"[numpy.str_({lb[:20]!r})] raised {type(e).__name__}: {e}"); return False
+            if got_n is not items[labs.index(lb)] or not in_n:
+                V("label-returns-not-first-match", f"[numpy.str_({lb[:20]!r})]"); return False
     # item objects
     for it in items:
         rec.count("oracle:C18.item-membership")
